@@ -8,6 +8,7 @@ import (
 	"errors"
 	"flag"
 	"fmt"
+	"net/url"
 	"os"
 	"path/filepath"
 	"strings"
@@ -65,9 +66,9 @@ func renderSpelling(sp spelling) string {
 	var out string
 	switch sp.Form {
 	case "url3":
-		out = "file:///" + p
+		out = "file://" + (&url.URL{Path: "/" + p}).EscapedPath()
 	case "url1":
-		out = "file:/" + p
+		out = "file:" + (&url.URL{Path: "/" + p}).EscapedPath()
 	case "path":
 		out = "/" + p
 	case "rel":
@@ -125,20 +126,36 @@ func init() {
 			fs.IntVar(&spellFlags.depth, "depth", 1, "directory depth of the root below the working directory")
 		},
 		init: func() error {
-			// two private working directories: the process moves between them from case to case
+			// two private working directories: the process moves between them from case to case.  The second
+			// one has a space in its name and is reached through a symbolic link (locations are lexical: PWD
+			// says how the process got there)
 			for i := 0; i < 2; i++ {
 				base, err := os.MkdirTemp("", "verif-cwd-")
 				if err != nil {
 					return err
 				}
 				base, _ = filepath.EvalSymlinks(base)
-				if err := os.MkdirAll(filepath.Join(base, "w", "r"), 0o755); err != nil {
+				dir := base
+				if i == 1 {
+					real := filepath.Join(base, "real dir")
+					if err := os.MkdirAll(real, 0o755); err != nil {
+						return err
+					}
+					dir = filepath.Join(base, "li nk")
+					if err := os.Symlink(real, dir); err != nil {
+						return err
+					}
+				}
+				if err := os.MkdirAll(filepath.Join(dir, "w", "r", "d1", "d2"), 0o755); err != nil {
 					return err
 				}
-				spellDirs = append(spellDirs, base)
+				for _, sub := range []string{"", "d1", "d1/d2"} {
+					_ = os.WriteFile(filepath.Join(dir, "w", "r", sub, "root.json"), []byte(spellRoot), 0o644)
+				}
+				spellDirs = append(spellDirs, dir)
 			}
 			cwdPrefix = spellDirs[0]
-			return os.Chdir(filepath.Join(cwdPrefix, "w", "r"))
+			return spellChdir()
 		},
 		crashed: func(line []byte, outcome, detail string) interface{} {
 			var sp spelling
@@ -153,10 +170,10 @@ func init() {
 			}
 			spellCounter++
 			cwdPrefix = spellDirs[spellCounter%2]
-			if err := os.Chdir(filepath.Join(cwdPrefix, "w", "r")); err != nil {
+			if err := spellChdir(); err != nil {
 				return err
 			}
-			for _, api := range []string{"ExpandSpec", "ExpandSchemaWithBasePath", "ExpandParameter", "ExpandResponse"} {
+			for _, api := range []string{"ExpandSpec", "ExpandSchemaWithBasePath", "ExpandParameter", "ExpandResponse", "ExpandSchemaWithBasePath:id"} {
 				emit(runSpell(spellCounter, api, sp))
 			}
 			return nil
@@ -164,10 +181,18 @@ func init() {
 	}
 }
 
+func spellChdir() error {
+	d := filepath.Join(cwdPrefix, "w", "r")
+	if err := os.Chdir(d); err != nil {
+		return err
+	}
+	return os.Setenv("PWD", d)
+}
+
 func canonicalRoot() string {
 	below := []string{"", "d1/", "d1/d2/"}[spellFlags.depth]
 	if spellFlags.site == "file" {
-		return "file://" + cwdPrefix + "/w/r/" + below + "root.json"
+		return (&url.URL{Scheme: "file", Path: cwdPrefix + "/w/r/" + below + "root.json"}).String()
 	}
 	return spellFlags.site + "://h1.example/x/" + below + "root.json"
 }
@@ -213,6 +238,17 @@ func spellExpand(api, base string, docs map[string]string) (out string, loads []
 			return "", loads, e
 		}
 		b, _ := json.Marshal(&rs)
+		return string(b), loads, nil
+	case "ExpandSchemaWithBasePath:id":
+		// a root schema that declares an absolute id and holds a local cycle: nothing is fetched, the
+		// cut-point is written relative to the root whatever the spelling of its location
+		var s spec.Schema
+		_ = json.Unmarshal([]byte(`{"id":"http://ids.example/schemas/root.json","type":"object","properties":{"head":{"$ref":"#/definitions/node"}},`+
+			`"definitions":{"node":{"type":"object","properties":{"next":{"$ref":"#/definitions/node"}}}}}`), &s)
+		if e := spec.ExpandSchemaWithBasePath(&s, spec.VerifNewCache(), opts); e != nil {
+			return "", loads, e
+		}
+		b, _ := json.Marshal(&s)
 		return string(b), loads, nil
 	default:
 		var s spec.Schema
